@@ -23,6 +23,7 @@ use swimos_form::write::{
     BodyWriter, HeaderWriter, Label, PrimitiveWriter, RecordBodyKind, StructuralWritable,
     StructuralWriter,
 };
+use swimos_model::identifier::{is_identifier_char, is_identifier_start};
 use swimos_model::literal::write_string_literal;
 use swimos_model::{BigInt, BigUint};
 
@@ -49,6 +50,19 @@ pub fn print_recon_pretty<T: StructuralWritable>(value: &T) -> impl Display + '_
 }
 
 struct ReconPrint<'a, T, S>(&'a T, S);
+
+/// Write the name of an attribute, quoting it when it is not a valid identifier.
+fn write_attr_name(name: &str, fmt: &mut Formatter<'_>) -> std::fmt::Result {
+    let mut chars = name.chars();
+    let is_ident = matches!(chars.next(), Some(c) if is_identifier_start(c))
+        && chars.all(is_identifier_char);
+    fmt.write_str("@")?;
+    if is_ident {
+        fmt.write_str(name)
+    } else {
+        write_string_literal(name, fmt)
+    }
+}
 
 impl<'a, T: StructuralWritable, S: PrintStrategy + Copy> Display for ReconPrint<'a, T, S> {
     fn fmt(&self, f: &mut Formatter<'_>) -> std::fmt::Result {
@@ -277,7 +291,7 @@ where
         } else {
             *has_attr = true;
         }
-        write!(fmt, "@{}", name.as_ref())?;
+        write_attr_name(name.as_ref(), fmt)?;
         let attr_printer = AttributePrinter::new(fmt, *strategy);
         value.write_with(attr_printer)?;
         Ok(self)
@@ -680,7 +694,7 @@ where
         } else {
             *has_attr = true;
         }
-        write!(fmt, "@{}", name.as_ref())?;
+        write_attr_name(name.as_ref(), fmt)?;
         let attr_printer = AttributePrinter::new(fmt, *strategy);
         value.write_with(attr_printer)?;
         Ok(self)
